@@ -108,8 +108,9 @@ func (g *umGen) structType(depth int, bad bool, defs map[string]bool) reflect.Ty
 			if g.r.Intn(2) == 0 {
 				ft = reflect.SliceOf(ft)
 			}
-		case bad && k == 1:
-			ft = []reflect.Type{reflect.TypeOf((*int32)(nil)), reflect.TypeOf([][]int32(nil)), reflect.TypeOf([3]byte{}), reflect.TypeOf((*kmip.Name)(nil)), reflect.TypeOf(func() {})}[g.r.Intn(5)]
+		case bad && (k == 1 || k == 2):
+			ft = []reflect.Type{reflect.TypeOf((*int32)(nil)), reflect.TypeOf([][]int32(nil)), reflect.TypeOf([3]byte{}), reflect.TypeOf([16]byte{}), reflect.TypeOf([4]int32{}),
+				reflect.TypeOf((*kmip.Name)(nil)), reflect.TypeOf(func() {}), reflect.TypeOf([3]byte{})}[g.r.Intn(8)]
 		case k < 10 || depth >= 2:
 			ft = userLeafTypes[g.r.Intn(len(userLeafTypes))]
 		case k < 12:
